@@ -48,3 +48,45 @@ pub fn run(w: &[&str]) -> String {
     }
     out.join(";")
 }
+
+
+/// timer_rs_kb <en> <pm> <ps> <isr> ops...  (t:<c> | a | r:<c> | n:<nm>:<ns>): the ticks go through
+/// TimerContext::tick_timers_with_keyboard (what CoreRuntime::step calls) with a keyboard scan that reports one new key
+/// event on every main-timer firing; "a" is the firmware acknowledging (clearing) the status register
+pub fn run_kb(w: &[&str]) -> String {
+    let en = w[0] != "0";
+    let pm = num(w[1]) as i32;
+    let ps = num(w[2]) as i32;
+    let isr = num(w[3]) as u8;
+    let mut mem = MemoryImage::new();
+    mem.write_internal_byte(IMEM_ISR_OFFSET, isr);
+    let mut t = TimerContext::new(en, pm, ps);
+    t.set_keyboard_irq_enabled(true);
+    let mut out: Vec<String> = Vec::new();
+    for op in &w[4..] {
+        let parts: Vec<&str> = op.split(':').collect();
+        let (fm, fs) = match parts[0] {
+            "t" => {
+                let (m, s, _n, _k) = t.tick_timers_with_keyboard(&mut mem, num(parts[1]), |_mem| (1usize, true, None), None, None);
+                (m, s)
+            }
+            "a" => {
+                mem.write_internal_byte(IMEM_ISR_OFFSET, 0);
+                (false, false)
+            }
+            "r" => {
+                t.reset(num(parts[1]));
+                (false, false)
+            }
+            "n" => {
+                t.next_mti = num(parts[1]);
+                t.next_sti = num(parts[2]);
+                (false, false)
+            }
+            _ => return "ERR bad-op".to_string(),
+        };
+        let isr_now = mem.read_internal_byte(IMEM_ISR_OFFSET).unwrap_or(0);
+        out.push(format!("{},{},{},{},{}", fm as u8, fs as u8, t.next_mti, t.next_sti, isr_now));
+    }
+    out.join(";")
+}
